@@ -29,7 +29,7 @@ def plan(tier, seed):
         specs.append({"name": f"dropped-index-generations-{j}", "kind": "generations", "schemes": gen.SCHEMES[j::3],
                       "rounds": 1 if tier == "quick" else 8, "generations": 60, "budget_s": 120})
     specs.append({"name": "real-server-many-services", "kind": "many_services", "services": 27 if tier == "quick" else 150,
-                  "budget_s": 200})
+                  "small_services": 900 if tier == "quick" else 4000, "budget_s": 100 if tier == "quick" else 400})
     for j in range(3 if tier == "quick" else 6):
         specs.append({"name": f"steered-values-{j}", "kind": "steered", "index": j, "of": 3 if tier == "quick" else 6,
                       "budget_s": 14 if tier == "quick" else 240})
@@ -311,6 +311,46 @@ async def many_services(spec, acc, ctx):
                 await wh.settle(20)
         acc.count("cases", len(services))
         acc.add("distinct", "many-services")
+        # phase 2: hundreds of small PiBas services, one upload and one search each - whatever the server derives from
+        # the bytes of an index (lengths, checksums, file names) meets hundreds of different values
+        scheme = "CJJ14.PiBas"
+        cfg = gen.default_config(scheme)
+        L = sse.loader(scheme)
+        cobj = L.SSEConfig(json.loads(json.dumps(cfg)))
+        sch = L.SSEScheme(copy.deepcopy(cfg))
+        key = sch.KeyGen()
+        ids = gen.gen_ids(rng, 8, 6)
+        for i in range(spec.get("small_services", 0)):
+            if ctx.out_of_time():
+                break
+            db = {b"kw": rng.sample(ids, rng.randint(1, 4)), b"x%d" % i: ids[:1]}
+            edb_bytes = sch.EDBSetup(key, copy.deepcopy(db)).serialize()
+            sid = "%064x" % rng.getrandbits(255)
+            conn = await wh.RawConn(server.uri, sid).open()
+            await conn.send("config", pickle.dumps(dict(cfg, salt="%x" % rng.getrandbits(64))))
+            await conn.next_event(8)
+            await conn.send("upload_edb", edb_bytes)
+            ev = await conn.next_event(8)
+            await conn.close()
+            await wh.settle(10)
+            conn = await wh.RawConn(server.uri, sid).open()
+            await conn.send("token", sch.TokenGen(key, b"kw").serialize(), token_digest=b"d")
+            ev = await conn.next_event(8)
+            acc.count("many_services.small_services_searched")
+            acc.count("pipeline.searches")
+            case = {"scheme": scheme, "many_services": True, "small_services": True}
+            if ev[0] != "msg" or ev[1].get("type") != "result":
+                acc.violation("PiBas:real-server:no-result:one-of-many-small-services",
+                              f"small service #{i}: after an acknowledged upload of a {len(edb_bytes)}-byte index the server "
+                              f"does not answer a search: {ev!r:.100}", case)
+                break
+            got = L.SSEResult.deserialize(ev[1]["content"], cobj).get_result_list()
+            if got != db[b"kw"]:
+                acc.violation("PiBas:real-server:wrong-result:one-of-many-small-services",
+                              f"small service #{i}: {len(got)} ids, expected {len(db[b'kw'])}", case)
+                break
+            await conn.close()
+            await wh.settle(10)
     except wh.Timeout:
         acc.count("many_services.timeouts")
         acc.note("many-services: the server did not answer in time")
